@@ -446,7 +446,7 @@ func runLogProp(cfg logRunCfg) func(seed int64, tier string, outDir string) *res
 			if tier == "thorough" {
 				nf, na = 600, 300
 			}
-			if cfg.prop == "C06" || cfg.prop == "C02" {
+			if cfg.prop == "C06" || cfg.prop == "C02" || cfg.prop == "C05" {
 				runForgeScenarios(xr, nf, st, xf)
 			}
 			if cfg.prop == "C04" {
